@@ -93,6 +93,7 @@ class _:
                   ("logger.info(", [("fi", None, "ghost('fi') + 1")])]
     loops = {1: {"cursor": "_i", "invariant": {
         "range": "0 <= _i <= len(entry._fields) and len(entry._fields) == old(len(entry._fields)) and fresh(errors) and ghost('fi') == _i and len(errors) >= 0",
+        "all-empty-if-no-failure": "implies(forall(i, 0 <= i < _i, not old(is_np(entry._fields[i]._value)) and implies(old(isstr(entry._fields[i]._value)), ufstr('conv_err', self, old(sval(entry._fields[i]._value))) == '')), forall(t, 0 <= t < len(errors), errors[t] == ''))",
         "converted": "forall(i, 0 <= i < _i, implies(old(isstr(entry._fields[i]._value)), sval(entry._fields[i]._value) == ufstr('conv_text', self, old(sval(entry._fields[i]._value))) and 0 <= ghost('epos', i) < len(errors) and errors[ghost('epos', i)] == ufstr('conv_err', self, old(sval(entry._fields[i]._value)))))",
         "fields-same": "same(entry._fields, old(entry._fields)) and forall(i, 0 <= i < len(entry._fields), same(entry._fields[i], old(entry._fields[i])) and entry._fields[i]._key == old(entry._fields[i]._key))",
         "values": "forall(i, 0 <= i < len(entry._fields), isstr(entry._fields[i]._value) == old(isstr(entry._fields[i]._value)) and implies(not old(isstr(entry._fields[i]._value)), same(entry._fields[i]._value, old(entry._fields[i]._value))) and implies(i >= _i, same(entry._fields[i]._value, old(entry._fields[i]._value))))",
@@ -108,6 +109,7 @@ class _:
         "C18.identity-untouched": "entry._key == old(entry._key) and entry._entry_type == old(entry._entry_type) and same(entry._raw, old(entry._raw)) and same(entry._start_line_in_file, old(entry._start_line_in_file))",
         "C18.contained": "same(result, entry) or (cls_is(result, 'MiddlewareErrorBlock') and fresh(result) and same(as_ref(result, 'ref:MiddlewareErrorBlock')._ignore_error_block, entry))",
         "C18.converted": "forall(i, 0 <= i < len(entry._fields), implies(old(isstr(entry._fields[i]._value)), sval(entry._fields[i]._value) == ufstr('conv_text', self, old(sval(entry._fields[i]._value)))))",
+        "C18.no-failure-no-error-block": "implies(forall(i, 0 <= i < len(entry._fields), not old(is_np(entry._fields[i]._value)) and implies(old(isstr(entry._fields[i]._value)), ufstr('conv_err', self, old(sval(entry._fields[i]._value))) == '')), same(result, entry))",
         "C18.failure-never-ignored": "implies(same(result, entry), forall(i, 0 <= i < len(entry._fields), implies(old(isstr(entry._fields[i]._value)), ufstr('conv_err', self, old(sval(entry._fields[i]._value))) == '')))",
     }
     raises = {}
